@@ -194,6 +194,14 @@ def check_proofs(prop):
     return res
 
 
+def run_coqchk(prop):
+    """thorough tier: independent re-check of the compiled property file and everything it depends on."""
+    rc, out, dt = sh(["coqchk", "-silent", "-o", "-Q", "theories", "PSA", "PSA.Properties." + prop], cwd=COQ, timeout=3000)
+    m = re.search(r"\* Axioms:(.*?)\n\s*\n", out, flags=re.S)
+    axioms = " ".join(m.group(1).split()) if m else "?"
+    return {"exit": rc, "axioms": axioms, "seconds": round(dt, 1), "tail": out[-600:]}
+
+
 # ---------------------------------------------------------------- streams
 
 def run_stream(stream, seed, n, outdir, race=False, extra_args=None, timeout=1800):
@@ -355,6 +363,13 @@ def main():
         problems.append("translator (gen) failed: " + st["logs"].get("gen", "")[-800:])
     proofs = check_proofs(prop)
     problems += proofs["broken"]
+    chk = None
+    if tier == "thorough" and not proofs["broken"]:
+        chk = run_coqchk(prop)
+        if chk["exit"] != 0:
+            problems.append("coqchk rejected Properties/%s.vo: %s" % (prop, chk["tail"]))
+        elif chk["axioms"] not in ("<none>",):
+            problems.append("coqchk reports axioms for Properties/%s.vo: %s" % (prop, chk["axioms"]))
     res = None
     if st["harness_ok"]:
         res = one_pass(prop, cfg, tier, seed)
@@ -436,6 +451,7 @@ def main():
             "property_failures_on_impl": (len(res["propfails"]) + len(res["go_fails"])) if res else None,
             "input_distribution": res["distribution"] if res else {},
             "extra": res["extra"] if res else {},
+            "coqchk": chk,
             "known_findings_reported": known_lines,
             "problems": problems,
             "partial": cfg.get("partial", ""),
